@@ -302,7 +302,7 @@ def _replay_jvec_dict(cex):
              for i, s_ in enumerate(survey.sources)}
     opts = dict(gridding='dict', gridding_opts=gopts, max_workers=1, verb=0,
                 receiver_interpolation='linear', tqdm_opts=False,
-                solver_opts=dict(tol=1e-10, plain=True, maxit=200))
+                solver_opts=dict(tol=1e-10))
     sim0 = emg3d.Simulation(survey, emg3d.Model(grid, mapping=mapping,
                                                 **kw), **opts)
     sim0.compute(observed=True)
